@@ -225,13 +225,18 @@ impl ConsumerGroup {
         
         // Update last delivered ID
         if let Some(last_entry) = entries.last() {
-            let mut last_id = self.last_delivered_id.lock().unwrap();
-            if last_entry.id > *last_id {
-                *last_id = last_entry.id;
-            }
+            self.advance_last_id(last_entry.id);
         }
         
         entries
+    }
+    
+    /// Move the group's cursor forward to `id` (never backwards)
+    pub fn advance_last_id(&self, id: StreamId) {
+        let mut last_id = self.last_delivered_id.lock().unwrap();
+        if id > *last_id {
+            *last_id = id;
+        }
     }
     
     /// Acknowledge messages, removing them from pending
